@@ -1096,4 +1096,60 @@ def rule_s(ctx: Ctx) -> None:
                 'implementations; the covering handler calls a reporter and does not raise.')
 
 
-RULES = [rule_a, rule_b, rule_c, rule_d, rule_e, rule_f, rule_g, rule_h, rule_i, rule_j, rule_k, rule_l, rule_m, rule_n, rule_o, rule_p, rule_q, rule_r, rule_s]
+PUBLIC_ENTRY = ('decode', 'encode', 'validate', 'is_valid', 'iter_decode', 'iter_encode', 'iter_errors', 'to_dict', 'to_objects', 'to_json', 'to_etree', 'text_decode',
+                'text_is_valid', 'from_json')
+COMPONENT_RECV = ('type', 'xsd_type', 'base_type', 'content', 'item_type', 'xsd_element', 'xsd_attribute', 'member_type', 'primitive_type')
+
+
+STRICT_CALL_REVIEWED = {
+    ('xmlschema.validators.xsd_globals.XsdGlobals.get_instance_type', 'xsd_attribute.validate'):
+        'only when the base type itself declares an xsi:type attribute: checks the lexical form of the xsi:type value before the lookup; probed with malformed values '
+        '("1bad", "a b", ""): the QName type accepts them lexically and the lookup reports "global component not found" - no escape exhibited',
+}
+
+
+def rule_t(ctx: Ctx) -> None:
+    """Inside a validation run errors travel through the context (raise_or_collect decides between raising and collecting).  The *public* strict entry points of a
+    component - decode() / encode() / validate() - raise XMLSchemaValidationError on their own; called from the internal machinery (raw_decode, the identity
+    selectors, facets) they turn an invalid field value into an exception that leaves iter_errors() and lax decoding.  The internal callers use
+    raw_decode / text_decode, or stand under a handler."""
+    rule = 'C11.t'
+    from .c10 import graph
+    eff, cg, prev, roots, _ = graph(ctx)
+    n = m_ = 0
+    for q in sorted(prev):
+        f = ctx.idx.functions[q]
+        if isinstance(f.node, ast.Lambda) or f.name in PUBLIC_ENTRY:
+            continue
+        parents = None
+        for c in calls(f.node):
+            if not (isinstance(c.func, ast.Attribute) and c.func.attr in ('decode', 'encode', 'validate')):
+                continue
+            recv = text(c.func.value).split('.')[-1]
+            if recv not in COMPONENT_RECV:
+                continue
+            n += 1
+            mode = next((k.value for k in c.keywords if k.arg == 'validation'), c.args[1] if len(c.args) > 1 and c.func.attr != 'validate' else None)
+            if isinstance(mode, ast.Constant) and mode.value in ('lax', 'skip'):
+                continue
+            m_ += 1
+            parents = parents or enclosing_map(f.node)
+            names = handler_classes(ctx, f, site_handlers(f, c, parents))
+            ok = bool({'XMLSchemaValidationError', 'XMLSchemaDecodeError', 'XMLSchemaEncodeError', 'XMLSchemaValidatorError', 'XMLSchemaException', 'ValueError', 'Exception',
+                       'BaseException'} & names)
+            why = STRICT_CALL_REVIEWED.get((q, text(c.func)))
+            if not ok and why:
+                ctx.ob(rule, f'{q.split(".", 2)[-1]}: the strict public call `{text(c)[:50]}` is a reviewed site', f.loc(c), True, why, key=f'{q}|strict-public-call|{text(c.func)[:40]}',
+                       nontrivial=False)
+                continue
+            ctx.ob(rule, f'{q.split(".", 2)[-1]}: the strict public call `{text(c)[:50]}` inside the validation machinery stands under a handler', f.loc(c), ok,
+                   '' if ok else 'decode()/encode()/validate() raise XMLSchemaValidationError themselves: an identity field such as id="abc" of type xs:integer makes iter_errors(), '
+                   'is_valid() and lax decoding end with XMLSchemaDecodeError instead of a collected error (use text_decode / raw_decode with the context)',
+                   key=f'{q}|strict-public-call|{text(c.func)[:40]}')
+    ctx.floor(rule, 'validation-time functions inspected', len(prev), 100)
+    ctx.note(f'{rule}: {n} public decode/encode/validate call(s) on components inside the validation machinery, {m_} of them strict')
+    ctx.explain('C11.t: in the functions reachable from the validation entry points (typed call graph; the public entry points themselves excluded) a call of '
+                '<component>.decode/encode/validate without validation=\'lax\'/\'skip\' lies inside a try whose handlers cover XMLSchemaValidationError.')
+
+
+RULES = [rule_a, rule_b, rule_c, rule_d, rule_e, rule_f, rule_g, rule_h, rule_i, rule_j, rule_k, rule_l, rule_m, rule_n, rule_o, rule_p, rule_q, rule_r, rule_s, rule_t]
